@@ -502,6 +502,48 @@ def work(item):
         shutil.rmtree(root, ignore_errors=True)
 
 
+# characters that str.splitlines() treats as line boundaries but a text file's readline() does not:
+# the statement counts LINES OF THE RESOURCE, i.e. what '\n' separates
+ODD_BREAKS = ["\x0b", "\x0c", "\x1c", "\x1d", "\x1e", "\x85", "\u2028", "\u2029"]
+ODD_SCHEMA = '<schema><key name="a"/><key name="b" datatype="integer"/><multikey name="c"/></schema>'
+
+
+def odd_linebreaks(col):
+    """Directed: a value containing a character of ODD_BREAKS on an earlier line does not shift the
+    line number reported for a fault on a later line (and the value keeps the character)."""
+    import io
+    ZConfig = use_repo()
+    schema = cs.load_schema(ODD_SCHEMA)
+    for ch in ODD_BREAKS:
+        for k in (1, 2, 3):
+            head = "".join("c x%sy%s\n" % (ch, ch if i % 2 else "") for i in range(k))
+            for fault, want_cls in (("b notint\n", "DataConversionError"), ("zz 1\n", "ConfigurationError"),
+                                    ("a $undefined\n", "SubstitutionReplacementError"), ("<nosuch>\n", "ConfigurationError")):
+                text = head + fault
+                col.case(("odd", ch, k, fault))
+                try:
+                    ZConfig.loadConfigFile(schema, io.StringIO(text), url="file:///odd.conf")
+                    got = ("accepted", None, None)
+                except ZConfig.ConfigurationError as e:
+                    got = (type(e).__name__, getattr(e, "lineno", None), getattr(e, "url", None))
+                except Exception as e:                                        # noqa: BLE001
+                    got = ("escaped:" + type(e).__name__, None, None)
+                if got[1] != k + 1 or got[2] != "file:///odd.conf" or got[0].startswith("escaped") or got[0] == "accepted":
+                    col.violation("C08:line-count-shifted-by-unusual-line-boundary-characters",
+                                  "a fault on line %d (after %d lines whose values contain %r) is not reported at that line"
+                                  % (k + 1, k, ch), {"text": text, "url": "file:///odd.conf"},
+                                  [want_cls, k + 1, "file:///odd.conf"], list(got))
+        # and the value itself is not cut at the character
+        try:
+            cfg, _ = ZConfig.loadConfigFile(schema, io.StringIO("a x%sy\n" % ch))
+            if cfg.a != "x%sy" % ch:
+                col.violation("C08:value-cut-at-unusual-line-boundary-character", "value differs",
+                              {"text": "a x%sy\n" % ch}, "x%sy" % ch, cfg.a)
+        except Exception as e:                                            # noqa: BLE001
+            col.violation("C08:value-cut-at-unusual-line-boundary-character", "rejected",
+                          {"text": "a x%sy\n" % ch}, "accepted", type(e).__name__)
+
+
 def run(tier, seed):
     use_repo()
     quick = tier == "quick"
@@ -510,10 +552,13 @@ def run(tier, seed):
     items = [(si, seed * 1000 + s, per_kind)
              for si in range(len(cs.SCHEMAS)) for s in range(nseeds)]
     col = Collector()
+    odd_linebreaks(col)
     for part in pmap(work, items, chunksize=1):
         col.merge(part)
     return col.result(
-        bound="10 corpus schemas x %d accepted texts; 12 fault kinds "
+        bound="directed: 4 fault kinds after 1..3 lines whose values contain one of the 8 characters that "
+              "str.splitlines() (but not readline()) treats as a line boundary; "
+              "10 corpus schemas x %d accepted texts; 12 fault kinds "
               "(malformed line, bad directive, undefined $name, malformed "
               "substitution, unknown key, repeated single key, unconvertible "
               "key under identifier key type, unconvertible value, unknown "
